@@ -52,6 +52,13 @@ struct probe_callback final : probe_cb_base {
 };
 struct probe_stop_source::token {
   probe_stop_source* s = nullptr;
+  // moving from the token empties it, as with std::stop_token: asking a moved-from token anything is asking the wrong object
+  token() = default;
+  explicit token(probe_stop_source* p) noexcept : s(p) {}
+  token(const token&) = default;
+  token& operator=(const token&) = default;
+  token(token&& o) noexcept : s(o.s) { o.s = nullptr; }
+  token& operator=(token&& o) noexcept { s = o.s; if (&o != this) o.s = nullptr; return *this; }
   template <class F> using callback_type = probe_callback<F>;
   bool stop_requested() const noexcept { return s && s->stop_requested(); }
   bool stop_possible() const noexcept { return s != nullptr; }
